@@ -219,7 +219,9 @@ Definition contains_all_repr (present : bool) (l look : list value) : res bool :
 
 (* ---------- maps: Merge ---------- *)
 
-(* Map.Merge: the duplicate check remembers the colliding key in a string and tests it against "" *)
+(* Map.Merge: the first key of the other map that the receiver already contains is an error
+   (a found flag; since repo commit "fix: Map.Merge detects an overlap on the empty key" this
+   includes the key "") *)
 Fixpoint first_dup (a : list (str * value)) (other : list (str * value)) : option str :=
   match other with
   | [] => None
@@ -228,8 +230,8 @@ Fixpoint first_dup (a : list (str * value)) (other : list (str * value)) : optio
 
 Definition map_merge (a b : list (str * value)) : res value :=
   match first_dup a b with
-  | Some (_ :: _) => Err None
-  | _ => Ok (VMap (a ++ b))           (* a colliding key "" goes unnoticed *)
+  | Some _ => Err None
+  | None => Ok (VMap (a ++ b))
   end.
 
 (* ---------- integer operators ---------- *)
